@@ -232,6 +232,6 @@ def callee_path(t):
     """Resolved def path if resolvable, else the unresolved path."""
     fr = callee_of(t)
     if fr is None:
-        return None
+        return ""        # indirect call (function pointer / unresolved): no path; callers test substrings
     r = fr.get("res")
     return r["path"] if r else fr["path"]
